@@ -70,7 +70,8 @@ func zzSetArgv(pre, post []string, dash bool) {
 // single string joining them; the arguments before "--" are returned untouched.
 func ZZ_C19_Get() {
 	npre := zz.Choose("npre", 3)
-	npost := zz.Choose("npost", 4)
+	npost := zz.Choose("npost", zz.Param("maxpost", 3)+1)
+	alen := zz.Param("arglen", 4)
 	dash := zz.Bool("dash")
 	var pre, post []string
 	for k := 0; k < npre; k++ {
@@ -78,7 +79,7 @@ func ZZ_C19_Get() {
 	}
 	if dash {
 		for k := 0; k < npost; k++ {
-			post = append(post, zz.Str(fmt.Sprintf("post%d", k), 4, zzArgAlphabet))
+			post = append(post, zz.Str(fmt.Sprintf("post%d", k), alen, zzArgAlphabet))
 		}
 	}
 	if zz.Native() {
@@ -131,7 +132,7 @@ func ZZ_C19_Parse() {
 	n := zz.Choose("n", 4)
 	var in []string
 	for k := 0; k < n; k++ {
-		in = append(in, zz.Str(fmt.Sprintf("arg%d", k), 4, zzArgAlphabet))
+		in = append(in, zz.Str(fmt.Sprintf("arg%d", k), zz.Param("arglen", 4), zzArgAlphabet))
 	}
 	calls, globals := Parse(in...)
 	nc := 0
@@ -186,7 +187,7 @@ func zzBuildCLI() (string, error) {
 	return bin, nil
 }
 
-var zzInitNames = []string{"", "sub.yml", ".yaml", "dir", "x/y.yml"}
+var zzInitNames = []string{"", "sub.yml", ".yaml", "dir", "x/y.yml", "x/.yml"}
 
 // ZZ_C19_Init_native replays a model of cmd/task's ZZ_C19_Init against the built binary.
 func ZZ_C19_Init_native() {
@@ -247,6 +248,8 @@ func zzInitTarget(pos string) string {
 		return "Taskfile.yaml"
 	case "dir":
 		return "dir/Taskfile.yml"
+	case "x/.yml": // an extension-only name keeps its directory
+		return "x/Taskfile.yml"
 	}
 	return pos
 }
@@ -351,7 +354,7 @@ func ZZ_C19_Forward() {
 	npost := 1 + zz.Choose("npost", 2)
 	var post []string
 	for k := 0; k < npost; k++ {
-		post = append(post, zz.Str(fmt.Sprintf("post%d", k), 4, zzArgAlphabet+"}."))
+		post = append(post, zz.Str(fmt.Sprintf("post%d", k), zz.Param("arglen", 4), zzArgAlphabet+"}."))
 	}
 	zzSetArgv([]string{"show"}, post, true)
 	argv, cli, err := Get()
